@@ -504,6 +504,11 @@ class CallMixin:
                     "svd", "qr", "slogdet", "gradient"):
             return self.fresh(node, ("tuple", "nd"), elem=self.fresh(node, ("nd",), st=st, tag="e"),
                               st=st)
+        if base in ("isnan", "isclose", "isfinite", "isinf", "logical_and", "logical_or", "logical_not",
+                    "logical_xor", "invert", "greater", "greater_equal", "less", "less_equal", "equal",
+                    "not_equal", "isin", "in1d", "signbit"):
+            # boolean result: as an index always advanced indexing (a copy)
+            return self.fresh(node, ("nd",), st=st)
         # everything else in the numpy namespace allocates its result
         k = set(kinds)
         k.add("scalar")
@@ -530,7 +535,10 @@ class CallMixin:
             if a.kinds & CONTAINER:
                 parts.append(self.fresh(node, a.kinds & CONTAINER, elem=a.elem, items=a.items, st=st))
             if a.kinds - CONTAINER - {"scalar", "none", "str"}:
-                parts.append(self.fresh(node, a.kinds - CONTAINER, cls=a.cls, st=st, tag="c"))
+                # copy.copy of an array / object: new top level object; if the value may be a
+                # container (kind any) its elements are shared
+                parts.append(self.fresh(node, a.kinds - CONTAINER, cls=a.cls, st=st, tag="c",
+                                        elem=AV(("any",), a.orig) if "any" in a.kinds else None))
             if a.kinds & {"scalar", "none", "str"}:
                 parts.append(AV(a.kinds & {"scalar", "none", "str"}, const=a.const))
             return join_all(parts)
